@@ -52,6 +52,9 @@ PINS = [
     'mesonbuild.backend.backends:Backend.get_custom_target_sources',
     'mesonbuild.backend.backends:Backend.get_target_depend_files',
     'mesonbuild.backend.backends:Backend.eval_custom_target_command',
+    'mesonbuild.build:flatten_command',
+    'mesonbuild.build:StaticLibrary.link',
+    'mesonbuild.build:StaticLibrary.link_whole',
     'mesonbuild.backend.backends:Backend.flatten_object_list',
     'mesonbuild.build:BuildTarget.get_all_link_deps',
     'mesonbuild.build:BuildTarget.get_dependencies',
@@ -111,7 +114,7 @@ CONTROLS = {
 
 
 # `cc.preprocess(..., include_directories: '.')` of a generated header cannot work when custom target outputs go to meson-out/
-NO_FLAT = {'override_and_nested'}
+NO_FLAT = {'override_and_nested', 'hdr_reach'}
 
 
 def corpus_projects(controls: bool = False) -> T.List[T.Tuple[str, T.Dict[str, str]]]:
@@ -175,7 +178,7 @@ def make_jobs(ctx: Ctx) -> T.List[dict]:
         jobs.append({'id': 'corpus/' + name, 'files': files, 'args': [], 'seed': rng.getrandbits(40), 'n_random': n_rand})
     for name, files in corpus:
         if name == 'ct_index_arg':
-            # the same project under --layout=flat in every tier (known finding F-GRAPH-FLAT-CTINDEX)
+            # the same project under --layout=flat in every tier (regression guard for the repaired F-GRAPH-FLAT-CTINDEX)
             jobs.append({'id': 'corpus/ct_index_arg--layout=flat', 'files': files, 'args': ['--layout=flat'],
                          'seed': rng.getrandbits(40), 'n_random': 1})
     for name, files in corpus_projects(controls=True):
@@ -189,10 +192,13 @@ def make_jobs(ctx: Ctx) -> T.List[dict]:
                     continue
                 jobs.append({'id': f'corpus/{name}{"".join(v)}', 'files': files, 'args': v, 'seed': rng.getrandbits(40),
                              'n_random': n_rand})
-    for k in range(ctx.scale(5, 90)):
+    for k in range(ctx.scale(6, 90)):
         sub = random.Random(rng.getrandbits(48))
         spec = c05_gen.gen_project(sub, max_items=ctx.scale(8, 12))
-        jobs.append({'id': f'gen/{k}', 'files': spec['files'], 'args': rng.choice(variants), 'seed': rng.getrandbits(40),
+        args = rng.choice(variants)
+        if spec.get('noflat') and '--layout=flat' in args:
+            args = []      # a generator-made header is included by its path below the build root, which layout=flat changes
+        jobs.append({'id': f'gen/{k}', 'files': spec['files'], 'args': args, 'seed': rng.getrandbits(40),
                      'n_random': n_rand, 'features': spec['features']})
     for k in range(ctx.scale(2, 30)):
         sub = random.Random(rng.getrandbits(48))
